@@ -307,7 +307,9 @@ def emit_def(d, st: Style, lines: list):
                 block_lines(cn, expr_node(ce, st), st, 2, lines)
     elif isinstance(d, En):
         lines.append("%s: %s" % (scalar(head, st), "!flags" if d.flags else "!enum"))
-        if d.base is not None:
+        if d.base_alias is not None:
+            lines.append("  base: %s" % d.base_alias)
+        elif d.base is not None:
             lines.append("  base: %s" % prim_spelling(P(d.base), st))
         defaults = [(1 << i) if d.flags else i for i in range(len(d.values))]
         is_default = [v for _, v in d.values] == defaults
